@@ -20,6 +20,9 @@ HEADERS = [b'HTTP/1.1 200 OK\r\nContent-Type: text/html\r\nContent-Length: %d\r\
            b'HTTP/1.1 200 OK\r\nFolded: a\r\n  b\r\nContent-Length: %d\r\n\r\n']                                 # folding
 
 
+SENT = {}          # (WARC-Type, target URI) -> list of the byte strings fed to the session for that record (the wire bytes): C04, checked when the files are read back
+
+
 def members(raw, compressed):
     """split a file into records: [(offset, length, plain bytes)]"""
     if not compressed:
@@ -57,6 +60,12 @@ def check_file(path, compressed, problems, ids):
             name, _, val = l.partition(b':'); f[name] = val.strip()
         block = plain[he + 4:-4]
         if plain[-4:] != b'\r\n\r\n': problems.append('record %s does not end with CRLF CRLF' % f.get(b'WARC-Record-ID'))
+        key = (f.get(b'WARC-Type'), f.get(b'WARC-Target-URI'))
+        if key in SENT and f.get(b'WARC-Type') in (b'request', b'response'):
+            if block not in SENT[key]:
+                problems.append('%s record for %s: the block (%d bytes, starts %r) is not what went over the wire for that message (%d bytes, starts %r)' % (
+                    key[0].decode(), key[1].decode(), len(block), block[:24], len(SENT[key][0]), SENT[key][0][:24]))
+        if not re.fullmatch(rb'\d+', f.get(b'Content-Length', b'')): problems.append('%s record %r: Content-Length is not a number: %r' % (f.get(b'WARC-Type', b'?').decode(), f.get(b'WARC-Record-ID'), f.get(b'Content-Length'))); continue
         if int(f[b'Content-Length']) != len(block): problems.append('%s: Content-Length %s, block has %d bytes' % (f.get(b'WARC-Type'), f[b'Content-Length'], len(block)))
         rid = f.get(b'WARC-Record-ID')
         if rid in ids: problems.append('record id %r used twice' % rid)
@@ -86,6 +95,7 @@ def exchange(rec, k, header_t, body, table):
     s = rec.new_http_recorder_session()
     if table is not None: s._url_table = table
     req = Request('http://example.com/p%d' % k); req.address = ('127.0.0.1', 80); req.prepare_for_send()
+    uri = req.url_info.url.encode()
     if k % 2 == 0:
         s.begin_request(req); s.request_data(req.to_bytes()); s.end_request(req)
     else:
@@ -102,7 +112,9 @@ def exchange(rec, k, header_t, body, table):
         shim.run(st.write_request(req))
         st.data_event_dispatcher.remove_write_listener(s.request_data)
         s.end_request(req)
+    if table is None: SENT.setdefault((b'request', uri), []).append(req.to_bytes())
     wire = header_t % len(body)
+    if table is None: SENT.setdefault((b'response', uri), []).append(wire + body)
     resp = Response(); resp.parse(wire); resp.request = req
     s.response_data(wire)                 # the header block is reported to listeners while read_response runs ...
     s.begin_response(resp)                # ... and begin_response is notified after it
@@ -121,6 +133,7 @@ def overlapped(rec, k, header_t, body_a, body_b, table):
     req = Request('http://example.com/slow%d' % k); req.address = ('127.0.0.1', 80); req.prepare_for_send()
     a.begin_request(req); a.request_data(req.to_bytes()); a.end_request(req)
     wire = header_t % len(body_a)
+    SENT.setdefault((b'request', req.url_info.url.encode()), []).append(req.to_bytes()); SENT.setdefault((b'response', req.url_info.url.encode()), []).append(wire + body_a)
     resp = Response(); resp.parse(wire); resp.request = req
     a.response_data(wire); a.begin_response(resp)
     half = len(body_a) // 2
@@ -132,7 +145,7 @@ def overlapped(rec, k, header_t, body_a, body_b, table):
 
 
 def run_case(cfg, rnd):
-    tmp = tempfile.mkdtemp(prefix='pyvc-c05-'); problems = []
+    tmp = tempfile.mkdtemp(prefix='pyvc-c05-'); problems = []; SENT.clear()
     try:
         table = RevisitTable() if cfg['revisit'] else None
         for run in range(2 if cfg['appending'] else 1):
@@ -143,8 +156,14 @@ def run_case(cfg, rnd):
             for k in range(4):
                 body = bytes(rnd.getrandbits(8) for _ in range(rnd.choice([0, 7, 2500])))
                 exchange(rec, k if not cfg['revisit'] else 0, HEADERS[(k + run) % len(HEADERS)], body if not cfg['revisit'] else b'same body', table)
+            # a record whose block is EMPTY (what an FTP transfer of a 0-byte file, an empty directory listing or a quiet log gives): Content-Length: 0, digest of nothing
+            from wpull.warc.format import WARCRecord as _WR
+            er = _WR(); er.set_common_fields('resource', 'application/octet-stream'); er.fields['WARC-Target-URI'] = 'ftp://example.com/empty%d.dat' % run
+            er.block_file = io.BytesIO(b''); rec.set_length_and_maybe_checksums(er); rec.write_record(er)
             # concurrent sessions (the crawler runs several): every record must still point at the warcinfo record of the file it ends up in
             overlapped(rec, run, HEADERS[run % len(HEADERS)], bytes(rnd.getrandbits(8) for _ in range(2600)), bytes(rnd.getrandbits(8) for _ in range(2600)), None)
+            overlapped(rec, 10 + run, HEADERS[(run + 1) % len(HEADERS)], bytes(rnd.getrandbits(8) for _ in range(40)), bytes(rnd.getrandbits(8) for _ in range(900)), None)
+            exchange(rec, 20 + 2 * run, HEADERS[0], b'after the overlap', None)
             rec.close()
         ids = set()
         for fn in sorted(os.listdir(tmp)):
